@@ -134,6 +134,7 @@ _place_cache = {}
 
 def parse_place(s):
     s = s.strip()
+    if s.startswith('(fake) '): s = s[7:].strip()          # `&raw const (fake) (*_n)`: a fake borrow reads nothing
     r = _place_cache.get(s)
     if r is None:
         r = _parse_place(s); _place_cache[s] = r
